@@ -75,7 +75,7 @@ class C10(Check):
     }
     required_probes = [
         "step_with_nonzero_mismatch", "step_with_zero_mismatch", "repeated_eval_without_step", "two_bodies_spread_into_nonzero_field",
-        "overlapping_supports", "reset_eval_into_dirty_field", "dt_ratio_ge_100", "step_before_any_eval", "uniform_flow_eval", "generic_flow_eval", "prelude_world_with_other_dx", "non_contiguous_eulerian_fields", "deviation_query", "many_markers",
+        "overlapping_supports", "reset_eval_into_dirty_field", "dt_ratio_ge_100", "step_before_any_eval", "uniform_flow_eval", "generic_flow_eval", "prelude_world_with_other_dx", "non_contiguous_eulerian_fields", "deviation_query", "many_markers", "linear_flow_eval",
     ]
     tiers = {
         "quick": {"runs": 480, "batch": 6, "timeout": 600},
@@ -164,7 +164,7 @@ class C10(Check):
                 if rng.random() < 0.3:
                     ops.append({"op": "deviation", "body": b})
                 if rng.random() < 0.5:
-                    ops.append({"op": "flow", "sub": prng.sub_seed(rng)} if rng.random() < 0.6 else {"op": "flow", "uniform": [rng.uniform(-2, 2) for _ in range(dim)]})
+                    ops.append(rng.choice([{"op": "flow", "sub": prng.sub_seed(rng)}, {"op": "flow", "uniform": [rng.uniform(-2, 2) for _ in range(dim)]}, {"op": "flow", "linear": {"a": [rng.uniform(-1, 1) for _ in range(dim)], "B": [[rng.uniform(-3, 3) for _ in range(dim)] for _ in range(dim)]}}]))
                 if rng.random() < 0.5:
                     ops.append({"op": "move", "body": b, "sub": prng.sub_seed(rng)})
                 if len(ops) > (60 if n_ops <= 40 else 400):
@@ -181,8 +181,11 @@ class C10(Check):
             elif r < w_eval + 0.37:
                 ops.append({"op": "move", "body": b, "sub": prng.sub_seed(rng)})
             elif r < w_eval + 0.52:
-                if rng.random() < 0.5:
+                rr = rng.random()
+                if rr < 0.4:
                     ops.append({"op": "flow", "uniform": [rng.choice([0.0, 1.0, -0.75, 2.5]) for _ in range(dim)]})
+                elif rr < 0.7:
+                    ops.append({"op": "flow", "linear": {"a": [rng.uniform(-1, 1) for _ in range(dim)], "B": [[rng.uniform(-3, 3) for _ in range(dim)] for _ in range(dim)]}})
                 else:
                     ops.append({"op": "flow", "sub": prng.sub_seed(rng)})
             else:
@@ -406,6 +409,7 @@ class C10(Check):
             res.probe("many_markers")
         nb = len(bodies)
         uniform = [0.0] * dim  # current flow is uniform with this value, or None
+        state = {"linear": None}  # current flow is linear: (a, B), or None
         cell_vol = float(dx) ** dim
         nontrivial_step = False
         sig0 = {"dim": dim, "reset": [x["reset"] for x in bodies], "nb": nb}
@@ -469,6 +473,17 @@ class C10(Check):
                     if not np.all(np.abs(U_obs - u0) <= tolu):
                         res.violation("pi_law", dict(sig0, what="uniform_flow_not_reproduced", grid=b["kind"], op=kind), f"op {oi} {kind} body {bi}: interpolating the uniform flow {uniform} gave deviation {np.max(np.abs(U_obs - u0)):.3e} > {tolu:.3e}", oi)
                     res.probe("uniform_flow_eval")
+                elif state["linear"] is not None:
+                    # "interpolated flow velocity" at the marker: for a linear field any regularised delta
+                    # kernel of this width returns the field value at the marker up to its first-moment
+                    # defect (0 for Peskin's, 1.6 % of dx for the cosine kernel); 10 % of dx allowed
+                    a, B = state["linear"]
+                    X = np.asarray(it.forcing_grid.position_field, dtype=np.float64)
+                    want = a.reshape(dim, 1) + B @ X
+                    toll = 0.1 * float(dx) * np.sum(np.abs(B), axis=1).reshape(dim, 1) + 64 * eps * (np.abs(want) + 1.0)
+                    if not np.all(np.abs(U_obs - want) <= toll):
+                        res.violation("pi_law", dict(sig0, what="interpolated_velocity_not_at_marker", grid=b["kind"], op=kind), f"op {oi} {kind} body {bi} (N={b['n']}): interpolating a linear flow gives {float(np.max(np.abs(U_obs - want))):.3e} deviation from the field value at the marker (allowed {float(np.max(toll)):.3e} = 10 % of dx times gradient)", oi)
+                    res.probe("linear_flow_eval")
                 else:
                     res.probe("generic_flow_eval")
                 m.evaluate(U_obs, v_body)
@@ -552,13 +567,26 @@ class C10(Check):
                 b["move"](op["sub"])
                 before_state = [snap_body_state(x) for x in bodies]
             elif kind == "flow":
-                if "uniform" in op:
+                linear = None
+                if "linear" in op:
+                    # u_c(x) = a_c + sum_ax B[c][ax] * x_ax on cell centres x = (i + 1/2) dx
+                    a = np.array((list(op["linear"]["a"]) + [0.0] * dim)[:dim], dtype=np.float64)
+                    B = np.array(op["linear"]["B"], dtype=np.float64)[:dim, :dim]
+                    centres = [(np.arange(shape[dim - 1 - ax]) + 0.5) * float(dx) for ax in range(dim)]  # x, y(, z)
+                    grids = np.meshgrid(*centres[::-1], indexing="ij")[::-1]  # arrays of x, y(, z) over (z, y, x)
+                    for c in range(dim):
+                        velocity[c] = (a[c] + sum(B[c, ax] * grids[ax] for ax in range(dim))).astype(real_t)
+                    uniform = None
+                    linear = (a, B)
+                    vel_before = velocity.copy()
+                elif "uniform" in op:
                     uniform = [float(x) for x in (list(op["uniform"]) + [0.0] * dim)[:dim]]
                     for ax in range(dim):
                         velocity[ax] = real_t(uniform[ax])
                 else:
                     uniform = None
                     velocity[...] = prng.smooth_field(op["sub"], velocity.shape, real_t, 1.0)
+                state["linear"] = linear
                 vel_before = velocity.copy()
             elif kind == "consume":
                 forcing[...] = 0
@@ -633,7 +661,7 @@ class C10(Check):
                 c = copy.deepcopy(program)
                 c["ops"][oi]["dt"] = 0.5
                 yield c
-            if o["op"] == "flow" and "sub" in o:
+            if o["op"] == "flow" and ("sub" in o or "linear" in o):
                 c = copy.deepcopy(program)
                 c["ops"][oi] = {"op": "flow", "uniform": [1.0] * program["dim"]}
                 yield c
